@@ -235,7 +235,24 @@ def leave_shard(spec, res, rng):
         b.add(s2, [x == 7])
         b.satisfiable(solver=s2, model_callback=cb_sigint if rng.random() < 0.5 else cb_raise)
 
-    ways = [("return", None), ("callback-raises", cb_raise), ("callback-changes-sigint-handler", cb_sigint), ("nested-call-left-by-exception", cb_nested)]
+    inside = []
+
+    def cb_evict(_m):
+        # conversions and abstractions while the outer call is running, with a conversion cache so small that every one
+        # of them evicts an older entry
+        for j in range(12):
+            b.simplify(x + j + claripy.BVS(f"ev{j}", 32, explicit_name=True))
+        inside.append(gc.isenabled())
+
+    def bad_add(s_):
+        b.add(s_, [x + 1])  # not a Boolean: the backend raises while adding
+
+    def bad_eval(s_):
+        b.eval(claripy.BVS("other_sort", 8) == 1, 1, solver=s_, extra_constraints=[x + 1])
+
+    b._ast_cache_size = 4
+    b._tls.__dict__.pop("ast_cache", None)
+    ways = [("return", None), ("callback-raises", cb_raise), ("callback-changes-sigint-handler", cb_sigint), ("nested-call-left-by-exception", cb_nested), ("cache-evictions-during-the-call", cb_evict), ("backend-add-raises", bad_add), ("backend-eval-raises", bad_eval)]
     old_handler = signal.getsignal(signal.SIGINT)
     try:
         for i in range(spec["n"]):
@@ -246,9 +263,12 @@ def leave_shard(spec, res, rng):
                     s = b.solver()
                     b.add(s, [x == i])
                     how = "returned"
+                    del inside[:]
                     try:
                         op = rng.choice(["satisfiable", "eval"])
-                        if op == "satisfiable":
+                        if name.startswith("backend-"):
+                            cb(s)
+                        elif op == "satisfiable":
                             b.satisfiable(solver=s, model_callback=cb)
                         else:
                             b.eval(x, 1, solver=s, model_callback=cb)
@@ -258,7 +278,13 @@ def leave_shard(spec, res, rng):
                         how = "AssertionError"
                     except claripy.errors.ClaripyError as e:
                         how = type(e).__name__
+                    except Exception as e:  # noqa: BLE001
+                        if not name.startswith("backend-"):
+                            raise
+                        how = type(e).__name__
                     res.count("calls_left:" + name)
+                    if any(inside):
+                        res.violation({"kind": "gc-guard", "mon": "M-gcinv", "what": "collector enabled while a call is in progress", "way": name, "observed": list(inside), "expected_collector": gc0})
                     res.setadd("ways_calls_were_left", f"{name}:{how}")
                     res.case(["leave", name, gc0, i], True)
                     if gc.isenabled() != gc0 or bz3._active_z3_calls != 0:
